@@ -195,11 +195,22 @@ func (x *Exec) runTop() {
 				}
 				t := x.evalBool(renv, en.E)
 				x.lookupAtEnd = false
-				x.oblige("post", fmt.Sprintf("post#%s@r%d", label, ri+1), rst.Guard, t, "postcondition (witnesses given) at return "+fmt.Sprint(ri+1)+": "+en.Text, fr.retBlock[ri].Instrs[len(fr.retBlock[ri].Instrs)-1].Pos(), false)
+				// named after the return statement's text, not its ordinal, so that adding or
+				// reordering returns does not rename the obligations of the others
+				rtxt := strings.Join(strings.Fields(x.lineText(fr.retBlock[ri].Instrs[len(fr.retBlock[ri].Instrs)-1].Pos())), "")
+				if len(rtxt) > 32 {
+					rtxt = rtxt[:32]
+				}
+				rname := fmt.Sprintf("post#%s@[%s]", label, rtxt)
+				rname = fmt.Sprintf("%s#%d", rname, x.count(rname))
+				x.oblige("post", rname, rst.Guard, t, "postcondition (witnesses given) at return "+fmt.Sprint(ri+1)+": "+en.Text, fr.retBlock[ri].Instrs[len(fr.retBlock[ri].Instrs)-1].Pos(), false)
 				conj = append(conj, mkImp(rst.Guard, t))
 			}
 			if en.At != "" && matched == 0 {
-				panic(toolErr(fmt.Sprintf("no return statement matches the anchor %q of clause [%s]", en.At, label)))
+				// the anchored return is gone: the clause's obligations are simply not
+				// generated, which the golden comparison reports (the rest of the function
+				// is still checked)
+				x.assumed["unmatched return anchor for clause ["+label+"]: "+en.At] = true
 			}
 			continue
 		}
